@@ -54,7 +54,7 @@ func (e *Enc) script() string {
 	for _, k := range sortedKeys(e.heapInits) {
 		t := e.heapInits[k]
 		fmt.Fprintf(&b, "(declare-const %s %s)\n", t.S, t.Sort)
-		if ax := e.heapTyping(k, t); ax != "" {
+		if ax := e.heapTypingAlloc(k, t, "alloc@0"); ax != "" {
 			b.WriteString(ax + "\n")
 		}
 	}
